@@ -21,6 +21,7 @@ def main(pid, tier, seed, harnesses, *, bounds, rule, dont_care=(), assumptions=
         herrors = []
         samples = []
         replays = 0
+        grid_points = 0
         inconclusive_list = []
         for r in results:
             if r["timed_out"] or not r["conditions"]:
@@ -42,8 +43,17 @@ def main(pid, tier, seed, harnesses, *, bounds, rule, dont_care=(), assumptions=
                             herrors.append(dict(module=r["module"], condition=cname, call=call, crosshair=c["message"],
                                                 error=f"counterexample did not reproduce natively ({detail})"))
                     else:
-                        inconcl += 1
-                        inconclusive_list.append(dict(module=r["module"], condition=cname, message=c["message"]))
+                        # CrossHair could not decide (typically: the call leaves the warm path, e.g. a type-level error that
+                        # is re-resolved on every call).  Fallback: a small native grid; a violation found there is real.
+                        call, npts = driver.native_grid(r["path"], cname, c.get("arg_types", []))
+                        grid_points += npts
+                        if call is not None:
+                            src = open(r["path"]).read()
+                            violations.append(dict(module=r["module"], condition=cname, call=call, crosshair=c["message"] or "inconclusive",
+                                                   native="False (native grid fallback)", meta=r["meta"], harness_source=src))
+                        else:
+                            inconcl += 1
+                            inconclusive_list.append(dict(module=r["module"], condition=cname, message=c["message"], native_grid_points=npts))
                 else:
                     reach_total += 1
                     if c["verdict"] == "counterexample":
@@ -80,7 +90,7 @@ def main(pid, tier, seed, harnesses, *, bounds, rule, dont_care=(), assumptions=
             harness_modules=len(results), check_conditions=total_checks, confirmed_over_all_paths=confirmed,
             inconclusive=inconcl, inconclusive_conditions=inconclusive_list[:20],
             reachability_twins=reach_total, reachability_witnessed=reach_ok,
-            counterexamples_replayed=replays, per_condition_timeout_s=pct,
+            counterexamples_replayed=replays, per_condition_timeout_s=pct, native_grid_points_for_inconclusive=grid_points,
             functions_encoded=["<generated>:__DISPATCH__ (entry point)", "<generated>:__DEPENDENT_DISPATCH__ (value checks)",
                                "typemap.py:MultiTypeMap (dict hit path)", "dependent.py:DependentType.__instancecheck__ / check / codegen'd checks",
                                "registered method bodies and user predicates"],
